@@ -27,8 +27,10 @@ BAD_FORMS = ["foo", "keplerian_", "cartesien", "kepler", "TLE2", "mean circular"
 BAD_FRAMES = ["XYZ", "EME2001", "itrf", "J2000", "QSW"]
 
 MUTATORS = ["set_form", "set_frame", "set_coord", "set_meta", "mutate_meta", "append_man", "remove_man",
-            "set_mans", "replace_cov_entry", "attach_cov", "del_cov"]
-MAKERS = ["copy", "copy_form", "copy_frame", "copy_both", "copy_same", "pickle", "as_orbit", "as_statevector"]
+            "set_mans", "replace_cov_entry", "attach_cov", "del_cov", "set_cov_frame"]
+MAKERS = ["copy", "copy_form", "copy_frame", "copy_both", "copy_same", "pickle", "as_orbit", "as_statevector",
+          "cov_copy"]
+COV_FRAMES = FRAMES + ["QSW", "TNW", "QSW", "TNW"]
 FAILING = ["bad_form", "bad_frame", "hill", "wrong_param"]
 
 
@@ -107,6 +109,10 @@ def _op(d, kind):
         op.update(a=d.int(0, 5), b=d.int(0, 5), factor=1.0 + d.u(1e-3, 0.5))
     if kind == "attach_cov":
         op["cov"] = _cov(d)
+    if kind == "set_cov_frame":
+        op["frame"] = d.pick(*COV_FRAMES)
+    if kind == "cov_copy":
+        op["frame"] = d.pick(None, *COV_FRAMES)
     if kind == "as_orbit":
         op["prop"] = d.pick("Kepler", "J2", "Kepler()", "J2()")
     if kind == "bad_form":
@@ -133,4 +139,16 @@ def history(draw, max_ops=6):
             group = "make"
         kinds = {"make": MAKERS, "mutate": MUTATORS, "fail": FAILING}[group]
         ops.append(_op(d, d.pick(*kinds)))
+    if d.int(0, 3) == 0:
+        # scenario: a covariance attached in an inertial frame is moved in place to a rotating frame
+        # (with its state, or alone), and only then the object is copied
+        init[0]["frame"] = d.pick(*INERTIAL)
+        init[0]["cov"] = dict(_cov(d), frame=None)
+        move = _op(d, d.pick("set_frame", "set_cov_frame"))
+        # PEF more often: conversions through the IAU-2010 series (ITRF / TIRF) cost ~10 ms each
+        move.update(i=0, frame=d.pick("PEF", "PEF", "PEF", "ITRF", "TIRF"), as_object=False)
+        make = _op(d, d.pick("copy", "copy", "as_orbit", "as_statevector", "copy_frame", "copy_form", "pickle",
+                             "cov_copy"))
+        make["i"] = 0
+        ops[:2] = [move, make]
     return dict(init=init, ops=ops)
